@@ -3,6 +3,7 @@ package h
 import (
 	"fmt"
 	"strconv"
+	"strings"
 
 	"github.com/vedadiyan/genql/compare"
 )
@@ -167,6 +168,44 @@ func checkC15(c Node) Verdict {
 		}
 		if !ok {
 			return fail("result", desc+" via "+sql, append(sig, "orderby"), "want %s before %s, got %s", ident(first), ident(second), Canon(any(out.Rows)))
+		}
+	}
+	// two values that compare equal tie on the first ORDER BY key, whatever their Go types: the second key decides
+	if want == 0 {
+		doc := map[string]any{"t": []any{map[string]any{"id": 1, "x": a, "k": 2}, map[string]any{"id": 2, "x": b, "k": 1}}}
+		sql := "SELECT id, k, x FROM t ORDER BY x, k"
+		out := Run(doc, sql, false)
+		v.Execs++
+		if out.Panic != nil || out.Err != nil {
+			return fail("error", desc+" via "+sql, sig, "%s", out.Describe())
+		}
+		ids := []any{}
+		for _, r := range out.Rows {
+			if m, ok := r.(map[string]any); ok {
+				ids = append(ids, m["id"])
+			}
+		}
+		if Canon(any(ids)) != Canon(any([]any{2, 1})) {
+			return fail("result", desc+" via "+sql, append(sig, "orderby"), "the keys tie (cmp = 0), the second key must decide: got %s", Canon(any(out.Rows)))
+		}
+	}
+	// a string operand written as a literal of the statement (in a comparison and in an IN list)
+	if s, ok := b.(string); ok && !strings.ContainsAny(s, "\x00") {
+		for _, t := range []struct {
+			cond string
+			keep bool
+		}{{"x = " + SQLString(s), want == 0}, {"x IN (" + SQLString(s) + ")", want == 0}, {"x NOT IN (" + SQLString(s) + ", " + SQLString(s+"~") + ")", want != 0 && compare.Compare(a, s+"~") != 0},
+			{"x < " + SQLString(s), want < 0}} {
+			doc := map[string]any{"t": []any{map[string]any{"x": a}}}
+			sql := "SELECT * FROM t WHERE " + t.cond
+			out := Run(doc, sql, false)
+			v.Execs++
+			if out.Panic != nil || out.Err != nil {
+				return fail("error", desc+" via "+sql, sig, "%s", out.Describe())
+			}
+			if (len(out.Rows) == 1) != t.keep {
+				return fail("result", desc+" via "+sql, append(sig, "literal"), "row kept = %v, want %v", len(out.Rows) == 1, t.keep)
+			}
 		}
 	}
 	// IN over a list holding the other value, and an equi-join on the two values: kept iff cmp = 0
